@@ -90,6 +90,26 @@ def guard_c03(sess, kind, d):
     return []
 
 
+def guard_c02(sess, kind, d):
+    """C02: every path handed to the storage backend is (a) the real path Server.get_paths resolved for this request —
+    confined to the user's base directory by get_paths' contract —, (b) an entry the backend itself listed below such a
+    path, or (c) the pending rename source (resolved the same way by RNFR, invariant I3)"""
+    if kind != "backend":
+        return []
+    out = []
+    from pyvc.models_path import PathVal
+
+    for a in d["args"]:
+        if not isinstance(a, PathVal):
+            continue
+        ok = hasattr(a, "resolved_for") or hasattr(a, "listed_from")
+        rf = sess.conn.slots.get("rename_from")
+        if (rf is not None and rf.fut.value is a) or a is getattr(sess, "rename_from0", None):
+            ok = True  # (c): stored by RNFR from a get_paths result (I3); RNTO reads it before deleting the slot
+        out.append((f"{d['op']}:path-comes-from-get_paths-or-a-listing-below-it", bool(ok)))
+    return out
+
+
 READ_VERBS = {"cwd", "cdup", "list", "mlsd", "mlst", "retr"}
 WRITE_VERBS = {"mkd", "rmd", "dele", "rnfr", "rnto", "stor", "appe"}
 PROBES = {"exists", "is_dir", "is_file"}
@@ -151,7 +171,9 @@ def make_handler_setup(meth, mode):
         sess = Session(u, mode=mode, limits=limits, ports=None if meth in ("pasv", "epsv") else False)
         sess.guards.append(("C03", guard_c03))
         sess.guards.append(("C04", guard_c04))
+        sess.guards.append(("C02", guard_c02))
         sess.verb = {v: k for k, v in VERBS.items()}.get(meth)
+        sess.rename_from0 = sess.conn.slots["rename_from"].fut.value
         u.sess = sess
         rest = fresh("str", "rest")
         # what parse_command hands over: a decoded line without trailing whitespace (rstrip'ed)
@@ -248,7 +270,7 @@ def define_handler_units():
     c.raises = {"PathIOError": [], "CancelledError": [], "Exception": []}
     for verb, meth in VERBS.items():
         for mode in ("SEQ",):
-            c = contract(SERVER, f"Server.{meth}", props=["C03", "C04", "C05", "C11", "C13", "C16", "C17", "C19"] + (["C10"] if meth == "user" else []) + (["C14"] if meth == "abor" else []) + (["C20"] if meth == "pass_" else []) + (["C08"] if meth == "pwd" else []), name=f"Server.{meth}#{mode}")
+            c = contract(SERVER, f"Server.{meth}", props=["C02", "C03", "C04", "C05", "C11", "C13", "C16", "C17", "C19"] + (["C10"] if meth == "user" else []) + (["C14"] if meth == "abor" else []) + (["C20"] if meth == "pass_" else []) + (["C08"] if meth == "pwd" else []), name=f"Server.{meth}#{mode}")
             c.setup = make_handler_setup(meth, mode)
             c.uses = [(SERVER, "Server.get_paths"), (SERVER, "User.get_permissions#summary"), (SERVER, "Server._start_passive_server")]
             c.exit_hook = pasv_exit if meth in ("pasv", "epsv") else handler_exit
